@@ -355,6 +355,11 @@ def faults_script(g):
         tog = r.choice([dict(op="emulate_failure", client="c", cond=r.choice(["internal_server", "deprecated", "none", "bogus"])),
                         dict(op="activate_force_failure", client="c")])
         ops.append(tog)
+        while r.random() < 0.4:
+            # a failure replaced by another one without passing through "none"
+            ops.append(r.choice([dict(op="emulate_failure", client="c", cond=r.choice(["internal_server", "deprecated"])),
+                                 dict(op="activate_force_failure", client="c")]))
+            if r.random() < 0.5: ops += g.data_op("c", [t], len(ops))[:1]
         for _ in range(r.randrange(1, 5)):
             ops += g.data_op("c", [t], len(ops))[:1]
         ops.append(r.choice([dict(op="deactivate_force_failure", client="c"), dict(op="emulate_failure", client="c", cond="none")]))
@@ -396,7 +401,7 @@ def batch_script(g):
         for _ in range(r.randrange(1, 6)):
             tt = r.choice(tabs)
             l = reqs.setdefault(tt["name"], [])
-            l.append({"put": g.item_of(tt)} if r.random() < 0.6 else {"delete": g.key_of(tt["schema"])})
+            l.append({"put": g.item_of(tt)} if r.random() < 0.6 else {"delete": g.key_of(tt["schema"], exact=r.random() < 0.8)})
         if r.random() < 0.08: reqs[tabs[0]["name"]] = [{"put": g.item_of(tabs[0])} for _ in range(r.choice([25, 26]))]
         if r.random() < 0.05: reqs.setdefault(tabs[0]["name"], []).append({})
         ops.append(dict(op="batch_write", client="c", requests=reqs))
@@ -529,7 +534,9 @@ def unit_stream(kinds):
             k = kinds[i % len(kinds)]
             if k == 'match': c = g.match_case()
             elif k == 'update': c = g.update_case()
-            elif k == 'malformed': c = g.malformed_case()
+            elif k == 'malformed':
+                c = g.malformed_case()
+                if i % 3 == 0: ops.append(c)
             elif k == 'float': c = g.numeral()
             elif k == 'lexparse':
                 c0 = g.malformed_case() if i % 3 else g.match_case()
